@@ -31,4 +31,12 @@ Record import_row := mkI {
   i_mod : string; i_setter : string; i_fields : list string; i_writes : list Z; i_arg : argkind;
   i_guard : Z }.
 
+(* a setter of InitGenesis whose error depends on OTHER state (guard 1 / 2): [g_sole] every keeper
+   function writing one of its prefixes is the setter itself or reached from it; [g_noreads] it
+   reads nothing of its own module's store; [g_foreign] the methods it calls on other modules'
+   keepers (module, method, prefixes that method reads there; module "?" when not a DeFi keeper) *)
+Record guard_row := mkGD {
+  g_mod : string; g_setter : string; g_sole : bool; g_noreads : bool;
+  g_foreign : list (string * string * list Z) }.
+
 Record unrec_row := mkU { u_mod : string; u_what : string }.
